@@ -61,6 +61,7 @@ type framePlan struct {
 	dup       bool
 	insertPos int // reorder: position among pending frames of the consumer's inbox
 	reuse     int // 0 none, 1 flip bytes in place, 2 reset+refill, 3 both
+	discard   bool // consumers decode with DiscardUnknown
 }
 
 type sentFrame struct {
@@ -324,7 +325,7 @@ type handlerAction struct {
 	kind int // 0 digest, 1.. read-only op
 }
 
-const numHandlerOps = 8
+const numHandlerOps = 9
 
 func handlerOp(m proto.Message, kind int) {
 	switch kind {
@@ -342,6 +343,8 @@ func handlerOp(m proto.Message, kind int) {
 		protojson.Marshal(m)
 	case 7:
 		m.ProtoReflect().Range(func(fd protoreflect.FieldDescriptor, v protoreflect.Value) bool { return true })
+	case 8:
+		getAll(m.ProtoReflect(), 0) // Has/Get on every field, also unpopulated ones
 	}
 }
 
@@ -387,6 +390,7 @@ func runPipeline(c *simrun.Ctx) *simrun.Violation {
 			fp.dup = t.Chance("dup", 1, 5)
 			fp.insertPos = t.Draw("reorder", 4)
 			fp.reuse = t.Draw("reuse", 4)
+			fp.discard = t.Chance("discard-unknown", 1, 5)
 			plans[p] = append(plans[p], fp)
 			nFrames++
 		}
@@ -542,7 +546,7 @@ func runPipeline(c *simrun.Ctx) *simrun.Violation {
 				atomic.LoadUint32(&w.slotSync[sf.slot]) // acquire: the sender filled the buffer
 				buf := w.slotBuf(sf.slot, sf.n)
 				msg := corpus[sf.plan.typ].ProtoReflect().Type().New().Interface()
-				err := proto.Unmarshal(buf, msg)
+				err := proto.UnmarshalOptions{DiscardUnknown: sf.plan.discard}.Unmarshal(buf, msg)
 				simhook.Yield(-2)
 				if checksum(buf) != sf.sum {
 					lg.errf("C07:unmarshal-modified-its-input|frame %d type %s", sf.plan.id, msg.ProtoReflect().Descriptor().FullName())
@@ -703,7 +707,7 @@ func runPipeline(c *simrun.Ctx) *simrun.Violation {
 			return nil
 		}
 		cm := corpus[sf.plan.typ].ProtoReflect().Type().New().Interface()
-		if err := proto.Unmarshal(sf.control, cm); err != nil {
+		if err := (proto.UnmarshalOptions{DiscardUnknown: sf.plan.discard}).Unmarshal(sf.control, cm); err != nil {
 			control[i] = "unmarshal-error: " + err.Error()
 			continue
 		}
